@@ -191,6 +191,52 @@ Proof.
 Qed.
 Print Assumptions C04_real_reply_after_reader_initiated_refuted.
 
+(* TIME (round 7).  The client has a read timeout: readHeader arms a deadline before it reads a
+   header and nothing re-arms it until the next readHeader.  The reader's stream delivers
+   [before], stalls for longer than the timeout, then delivers [after] — before ++ after being
+   the bytes of the frames fs, cut at ANY offset.  [serve_stall maxbuf cfg ign st env before
+   after] (Client/Stream.v) is the read loop on such a stream; ign = false is the tree as found:
+   a drain of the unread payload that the deadline cuts short ends the loop.  Whatever is
+   dispatched then was sent by the reader: the log consists of the complete frames, dispatched as
+   specified and in order, followed by at most one frame that the stall cut, for which the
+   client dispatched that frame's own header, showed a handler a prefix of its payload and gave
+   no caller a buffered reply ([stall_sound]); so the j-th dispatched header is the header of the
+   j-th frame the reader sent, for every j.  For every limit, configuration, awaiting state,
+   registration pattern and handler behaviour. *)
+Theorem C04_stall_dispatches_only_what_was_sent :
+  forall (maxbuf : N) (cfg : config) (fs : list frame) (st : state) (env : nat -> env_step)
+         (before after : list byte),
+  Forall frame_wf fs -> before ++ after = concat (map frame_bytes fs) ->
+  let log := serve_stall maxbuf cfg false st env before after in
+  stall_sound maxbuf cfg env st O fs log /\
+  (forall j d, nth_error log j = Some d ->
+     exists f, nth_error fs j = Some f /\ d_hdr d = frame_header f /\
+               (forall c, d_handler d = Some c -> exists q, f_payload f = hc_offered c ++ q)).
+Proof.
+  intros maxbuf cfg fs st env before after Hwf Heq log.
+  pose proof (serve_stall_sound maxbuf cfg fs st env before after Hwf Heq) as H.
+  split; [exact H|]. exact (stall_sound_headers maxbuf cfg env fs st O _ H).
+Qed.
+Print Assumptions C04_stall_dispatches_only_what_was_sent.
+
+(* FALSE once the error of the cut-short drain is dropped (ign = true): the loop goes on, the
+   next readHeader re-arms the deadline and takes the rest of the payload for a message.  One
+   frame whose payload is 1 2 3 followed by bytes that look like a frame (type 30, id 99); the
+   stream stalls after the third payload byte: two messages are dispatched, the second one never
+   sent. *)
+Theorem C04_stall_dispatches_only_what_was_sent_refuted :
+  exists maxbuf cfg fs st env before after,
+  Forall frame_wf fs /\ before ++ after = concat (map frame_bytes fs) /\ length fs = 1%nat /\
+  length (serve_stall maxbuf cfg true st env before after) = 2%nat /\
+  length (serve_stall maxbuf cfg false st env before after) = 1%nat.
+Proof.
+  destruct wit_stall_resync as [Hwf [Heq [H1 H2]]].
+  eexists 100, _, [_], st0, _, _, _. split; [constructor; [exact Hwf|constructor]|].
+  split; [exact Heq|]. split; [reflexivity|].
+  split; [rewrite <- (map_length d_hdr), H1; reflexivity|rewrite <- (map_length d_hdr), H2; reflexivity].
+Qed.
+Print Assumptions C04_stall_dispatches_only_what_was_sent_refuted.
+
 (* The byte-level loop refines the client LTS of Client/Model.v (the model behind C03, C05, C07,
    C08, C09): from an LTS state s whose reader is in readHeader and a byte-level state st that
    agree on the awaited ids and on receivedClosed ([Refine.rel]; [core_inv] is the LTS's proved
